@@ -417,6 +417,13 @@ func runWorker(ck *Check, tier universe.Tier, spec, out string, budget time.Dura
 			res.MaxDepth = e.Stats.MaxDepth
 			res.MaxCost = e.Stats.MaxCost
 			res.CapHit = e.Stats.CapHit
+			if e.Stats.Diverged > 0 {
+				note := fmt.Sprintf("the code under test did not repeat its scheduling/environment points on replayed prefixes (it is not a deterministic function of the choices, e.g. it iterates a Go map): %d subtrees abandoned in this shard", e.Stats.Diverged)
+				if res.CapHit != "" {
+					note = res.CapHit + "; " + note
+				}
+				res.CapHit = note
+			}
 			for _, f := range e.Stats.Failures {
 				res.Failures = append(res.Failures, toRec(ck.ID, name, f))
 			}
